@@ -131,6 +131,11 @@ theorem extend_eq (s : PQ π) (es : List (π × Nat)) :
   rw [hloop es s _ (by intro it st; simp)]
   simp [lt_eq]
 
+/-- closes a branch whose integer conditions contradict each other -/
+macro "arith_absurd" : tactic =>
+  `(tactic| (exfalso; simp only [decide_eq_true_eq, decide_eq_false_iff_not, bne_iff_ne, beq_iff_eq, ne_eq,
+      Bool.not_eq_true, beq_eq_false_iff_ne, Bool.false_eq_true, Bool.true_eq_false, not_false_eq_true] at *; omega))
+
 /-- `find(key, remove)`: `None` when nothing matches; else the (priority, object) of the model's
     entry, and the model's state -/
 theorem find_eq (s : PQ π) (key : Nat → Bool) (rm : Bool) :
@@ -149,14 +154,24 @@ theorem find_eq (s : PQ π) (key : Nat → Bool) (rm : Bool) :
       · cases hl : s.pq.getLast? with
         | none => simp_all
         | some last =>
+          simp only [listPop, hl, PQ.replaceWithTail, if_true]
           by_cases hj : j = 0
-          · simp [hj, listPop, hl, PQ.resetIfEmpty]
-            split <;> simp_all
-          · have h0 : (0:Int) ≤ ↑s.pq.length - ↑j - 1 := by omega
+          · -- the tail: `pop()`, sequence reset when that emptied the queue
+            have hj' : (j != 0) = false := by simp [hj]
+            simp only [hj', Bool.false_eq_true, if_false]
+            generalize s.pq.dropLast = d
+            split
+            · arith_absurd
+            · cases d <;> simp [PQ.resetIfEmpty]
+          · -- any other index: the tail replaces it, then `heapify`
+            have hj' : (j != 0) = true := by simp [hj]
+            have h0 : (0:Int) ≤ ↑s.pq.length - ↑j - 1 := by omega
             have h1 : ((s.pq.length : Int) - ↑j - 1).toNat = s.pq.length - j - 1 := by omega
-            simp [hj, listPop, hl, PQ.replaceWithTail]
-            rw [setItemI_nat _ _ _ h0 (by simp; omega)]
-            simp [h1]
+            simp only [hj', if_true]
+            split
+            · rw [setItemI_nat _ _ _ h0 (by simp; omega)]
+              simp [h1]
+            · arith_absurd
     · simp [hn h, h]
   · intro x _ hx; simp_all
   · intro x _ hx; simp_all [Ctl.isExit]
@@ -177,30 +192,41 @@ theorem remove_eq (s : PQ π) (x : Nat) :
     by_cases h : j < s.pq.length
     · obtain ⟨e, he, hqe, hf⟩ := hs h
       simp only [hf, h, he, hqe, if_true, lt_eq]
+      have hlast : s.pq.getLast? = s.pq[s.pq.length - 1]? := List.getLast?_eq_getElem?
       by_cases hj : j = 0
-      · simp only [hj, decide_true, if_true, beq_self_eq_true]
-        cases H.pop (Entry.lt plt) s.pq with
-        | none => simp
-        | some r => obtain ⟨e0, l⟩ := r; cases l <;> simp [PQ.resetIfEmpty]
-      · have hlast : s.pq.getLast? = s.pq[s.pq.length - 1]? := List.getLast?_eq_getElem?
-        by_cases hjl : j = s.pq.length - 1
-        · have hji : (j : Int) = (s.pq.length : Int) - 1 := by omega
-          have hj' : (j == 0) = false := by simpa using hj
-          have hjl' : (j == s.pq.length - 1) = true := by simpa using hjl
-          have hl : s.pq.getLast? = some e := by rw [hlast, ← hjl]; exact he
-          simp only [hj, hji, hj', hjl', decide_true, decide_false, if_true, if_false, listPop, hl,
-            PQ.resetIfEmpty, Bool.false_eq_true]
-          by_cases hd : s.pq.dropLast = [] <;> simp [hd]
-        · have hji : ¬ ((j : Int) = (s.pq.length : Int) - 1) := by omega
-          have hjl' : (j == s.pq.length - 1) = false := by simpa using hjl
-          have hj' : (j == 0) = false := by simpa using hj
-          simp only [hj, hji, hj', hjl', decide_false, if_false, listPop, PQ.replaceWithTail, Bool.false_eq_true]
-          cases hl : s.pq.getLast? with
-          | none => simp_all
-          | some last =>
-            have : j < s.pq.dropLast.length := by simp; omega
-            simp only [setItem, this, if_true, PQ.resetIfEmpty]
-            split <;> simp_all
+      · -- the head: `heappop`
+        have hj' : (j == 0) = true := by simp [hj]
+        simp only [hj', if_true]
+        split
+        · cases H.pop (Entry.lt plt) s.pq with
+          | none => simp
+          | some r => obtain ⟨e0, l⟩ := r; cases l <;> simp [PQ.resetIfEmpty]
+        · arith_absurd
+      · have hj' : (j == 0) = false := by simp [hj]
+        simp only [hj', Bool.false_eq_true, if_false]
+        split
+        · arith_absurd
+        · by_cases hjl : j = s.pq.length - 1
+          · -- the tail: `pop()`
+            have hjl' : (j == s.pq.length - 1) = true := by simp [hjl]
+            have hl : s.pq.getLast? = some e := by rw [hlast, ← hjl]; exact he
+            simp only [hjl', if_true, listPop, hl]
+            generalize s.pq.dropLast = d
+            split
+            · cases d <;> simp [PQ.resetIfEmpty]
+            · arith_absurd
+          · -- in the middle: the tail replaces it, then `heapify`
+            have hjl' : (j == s.pq.length - 1) = false := by simp [hjl]
+            simp only [hjl', Bool.false_eq_true, if_false, listPop, PQ.replaceWithTail]
+            split
+            · arith_absurd
+            · cases hl : s.pq.getLast? with
+              | none => simp_all
+              | some last =>
+                have : j < s.pq.dropLast.length := by simp; omega
+                simp only [setItem, this, if_true, PQ.resetIfEmpty]
+                generalize H.heapify (Entry.lt plt) _ = d
+                cases d <;> simp
     · simp [hn h, h]
   · intro it _ hx; simp_all
   · intro it _ hx; simp_all [Ctl.isExit]
@@ -218,12 +244,12 @@ theorem reschedule_eq (s : PQ π) (key : Nat → Bool) (np : π) :
     by_cases h : j < s.pq.length
     · obtain ⟨e, he, hqe, hf⟩ := hs h
       simp only [hf, h, he, hqe, if_true, lt_eq]
-      by_cases hc : (plt e.pri np || plt np e.pri) = true <;> simp [hc]
+      cases h1 : plt e.pri np <;> cases h2 : plt np e.pri <;> simp [h1, h2]
     · simp [hn h, h]
   · intro it _ hx; simp_all
   · intro it _ hx
-    simp_all only [if_true]
-    split <;> simp [Ctl.isExit]
+    have hx' : key it.1.obj = true := hx
+    cases h1 : plt it.1.pri np <;> cases h2 : plt np it.1.pri <;> simp [hx', h1, h2, Ctl.isExit]
 
 /-- `remove` for a heap library that pops every non-empty heap: plain ValueError / the model -/
 theorem remove_eq_total (hpop : ∀ a t, H.pop (Entry.lt plt) (a :: t) ≠ none) (s : PQ π) (x : Nat) :
